@@ -425,7 +425,13 @@ def fam_rebase_pairs(cfg, rng):
     kind = rng.choice(['L', 'L', 'V']) if cfg.n <= 64 else 'L'
     n = cfg.n if kind == 'V' else rng.choice([h.maxlen(), h.maxlen() // 2, rng.randint(0, h.maxlen()), rng.randint(1, max(1, h.maxlen()))])
     base = h.vals(n)
-    rel = rng.choice(['equal', 'diff1', 'diffk', 'prefix', 'extend_zero', 'extend', 'unrelated'])
+    rel = rng.choice(['equal', 'diff1', 'diffk', 'prefix', 'extend_zero', 'extend_zero', 'extend_zero', 'extend', 'unrelated', 'zero_pending'])
+    zero_pending = 0
+    if rel == 'zero_pending':
+        # the shorter side reaches the longer side's length through pending pushes of zero values,
+        # made after hashing: equal len(), equal hashes of the backing trees, different backing lengths
+        rel = 'extend_zero'
+        zero_pending = 1
     orig = list(base)
     if rel == 'diff1' and n:
         orig[rng.randrange(n)] = h.val()
@@ -481,9 +487,19 @@ def fam_rebase_pairs(cfg, rng):
     if 0 not in h.regs or 1 not in h.regs:
         return h
     # memo states
+    adversarial = rel in ('extend_zero', 'prefix', 'equal')
     for d in (0, 1):
-        if not h.regs[d]['p'] and rng.random() < 0.6:
+        if not h.regs[d]['p'] and rng.random() < (0.85 if adversarial else 0.6):
             h.hash(d)
+    if zero_pending and kind == 'L':
+        short, long_ = (0, 1) if len(h.regs[0]['v']) <= len(h.regs[1]['v']) else (1, 0)
+        while len(h.regs[short]['v']) < len(h.regs[long_]['v']) and len(h.regs[short]['v']) < cfg.n:
+            h.push(short, h.pool[0])
+    elif rng.random() < 0.2 and kind == 'L':
+        d = rng.choice((0, 1))
+        for _ in range(rng.randint(1, 3)):
+            if len(h.regs[d]['v']) < cfg.n:
+                h.push(d, h.pool[0] if rng.random() < 0.6 else None)
     # partial memo state: write after hashing
     for d in (0, 1):
         if rng.random() < 0.25 and h.regs[d]['v']:
@@ -755,8 +771,10 @@ def fam_builder(cfg, rng, d=None, k=None):
     h = H(cfg, rng, 'builder')
     pd = cfg.pd
     if d is None:
-        d = rng.choice([0, 1, 2, 3, 4, 5, 6, rng.randint(0, 10), 20, 40, 63 - pd - 1, 63 - pd, 64 - pd, 64])
+        d = rng.choice([0, 1, 2, 3, 4, 5, 6, rng.randint(0, 10), 20, 40, 63 - pd - 1, 63 - pd, 64 - pd, 64, USIZE_MAX, USIZE_MAX - 1, USIZE_MAX - pd, 2 ** 63])
     capd = 1 << min(d + pd, 62)
+    if d > 64:
+        k = rng.choice([0, 1, 2])
     if k is None:
         k = rng.choice([0, 1, capd - 1, capd, capd + 1, rng.randint(0, min(capd, 70)), rng.randint(0, min(capd, 70))])
     k = min(k, 70)
@@ -835,7 +853,7 @@ def fam_deep(cfg, rng):
 def fam_par(cfg, rng):
     h = H(cfg, rng, 'par')
     kind = rng.choice(['repeat', 'blocks', 'mixed'])
-    n = rng.randint(1, h.maxlen(64))
+    n = rng.randint(1, h.maxlen(64)) if cfg.n <= 1024 else rng.randint(1, 9)
     if kind == 'repeat':
         v = h.val()
         h.emit('repeat h0 %s %d' % (v, n))
@@ -899,6 +917,9 @@ def pick_cfg(rng, family, big_ok=True):
         return Cfg(rng.choice(['u64', 'u8', 'h256']), rng.choice(DEEP_NS), rng.choice(MAPS))
     if family == 'big':
         return Cfg(rng.choice(KINDS), 2 ** 40, rng.choice(MAPS))
+    if family == 'par' and rng.random() < 0.25:
+        # deep trees: zero-subtree hashes beyond the precomputed table are computed at run time
+        return Cfg(rng.choice(['u64', 'u8', 'h256']), rng.choice(DEEP_NS + [2 ** 40]), rng.choice(MAPS))
     kind = rng.choice(KINDS)
     ns = SMALL_NS + ([1024] if big_ok else [])
     n = rng.choice(ns)
